@@ -129,10 +129,16 @@ def run_shard(sh, testbin, prop_id, tier, seed, binpath, scratch, replay=None):
     for k, v in part.get("env", {}).items():
         env[k] = str(tier_val(v, tier))
     timeout = tier_val(part.get("timeout", {"quick": 600, "thorough": 3600}), tier)
-    args = [testbin, "-test.run", "^%s$" % part["test"], "-test.timeout", "%ds" % (timeout + 60), "-test.count=1", "-test.v"]
+    if part.get("kind") == "script":
+        env["VERIF_C15_BIN"] = testbin
+        args = [sys.executable, os.path.join(VERIF, "tools", part["script"])]
+    else:
+        args = [testbin, "-test.run", "^%s$" % part["test"], "-test.timeout", "%ds" % (timeout + 60), "-test.count=1", "-test.v"]
     if replay:
         env["VERIF_REPLAY"] = replay
         args = [testbin, "-test.run", "^TestReplay$", "-test.timeout", "%ds" % (timeout + 60), "-test.v"]
+    elif part.get("kind") == "script":
+        pass
     elif part.get("kind", "rapid") == "rapid":
         checks = tier_val(part["checks"], tier)
         per = max(1, (checks + sh.n - 1) // sh.n)
